@@ -73,7 +73,8 @@ def _drivers(d):
             f.write("#!/bin/sh\nexit 0\n")
         os.chmod(p, 0o755)
         exes.append(p)
-    settings = [dict(executable=exes[i], nprocs=2 + 3 * i, envars={"WHO": f"driver{i}", f"ONLY{i}": "1"}) for i in range(3)]
+    # processor counts below and far above what this machine has (jobs are prepared here and run elsewhere)
+    settings = [dict(executable=exes[i], nprocs=[2, 37, 200][i], envars={"WHO": f"driver{i}", f"ONLY{i}": "1"}) for i in range(3)]
     return HDriver, XTBDriver, settings
 
 
